@@ -36,6 +36,8 @@ def run(chk):
     # cancelled while nothing runs or is queued: the run only waits for an event (ctx.wait_for_event) or holds a partly
     # filled collect buffer -- the resumed run must go on from there as well
     items += eg.collect(chk, ["wait", "collect"], allow_cancel=True, p_cancel=0.15, drain=False, paths_q=12, walks_q=4)
+    # the deadline falls into a phase in which the run only waits for an event
+    items += eg.collect(chk, ["wait_deadline"], allow_cancel=True, timeout_advance=True, p_cancel=0.05, drain=False, paths_q=15, walks_q=5)
     items = [it for it in items if it[0] != "retry policy raises"]
     out = []
     nres = 0
